@@ -53,17 +53,18 @@ func pubStep(topic string, qos byte, retain bool, payload string) Step {
 	return Step{Kind: "pub", Topic: topic, QoS: qos, Retain: retain, Payload: []byte(payload)}
 }
 func advStep(d time.Duration) Step { return Step{Kind: "advance", D: d} }
-func causeStep(c string) Step     { return Step{Kind: "cause", Cause: c} }
+func causeStep(c string) Step      { return Step{Kind: "cause", Cause: c} }
 
 // PeerOpts configures the scripted MQTT-SN client's automatic replies.
 type PeerOpts struct {
-	NoAutoAck   bool // do not answer REGISTER/PUBLISH/PUBREL from the gateway
-	RegackRC    byte
-	WillTopic   string
-	WillQoS     uint8
-	WillRetain  bool
-	WillMsg     []byte
-	NoWillReply bool
+	NoAutoAck      bool // do not answer REGISTER/PUBLISH/PUBREL from the gateway
+	RegackRC       byte
+	RejectRegister func(name string) bool // refuse (RC 2) the gateway's REGISTER of this name
+	WillTopic      string
+	WillQoS        uint8
+	WillRetain     bool
+	WillMsg        []byte
+	NoWillReply    bool
 }
 
 // peerHandler returns the automatic responder of the scripted client: it
@@ -88,7 +89,11 @@ func peerHandler(o PeerOpts) func(s *world.Session, p *snref.Pkt, raw []byte) {
 		}
 		switch p.Type {
 		case snref.REGISTER:
-			s.SNSendP(snref.Regack(p.TopicID, p.MsgID, o.RegackRC))
+			rc := o.RegackRC
+			if o.RejectRegister != nil && o.RejectRegister(p.Name) {
+				rc = 2
+			}
+			s.SNSendP(snref.Regack(p.TopicID, p.MsgID, rc))
 		case snref.PUBLISH:
 			switch p.QoS {
 			case 1:
